@@ -128,7 +128,7 @@ def _exc_text(spec, rail):
 # oracles
 # ------------------------------------------------------------------------------------------------
 
-def check_c01(spec, rec, out, cfgclass, generation_clauses=False):
+def check_c01(spec, rec, out, cfgclass, generation_clauses=False, text_seen_before=False):
     """Input rails gate every user message (clauses a-d of DESIGN C01)."""
     ev = normalise_events(spec, rec.events)
     in_inv = [e for e in ev if e["kind"] == "rail" and e["rail"].startswith("in")]
@@ -175,7 +175,9 @@ def check_c01(spec, rec, out, cfgclass, generation_clauses=False):
                 break
             first_rw = e["idx"]
         for g in ev:
-            if g["kind"] == "gen" and secret and secret.group(0) in g["prompt"] and g["idx"] > (first_rw or -1):
+            # (a turn that repeats an earlier turn's text word for word: the history part of a prompt legitimately shows the earlier
+            # message as it was sent - the clause cannot tell the two apart and is not applied)
+            if g["kind"] == "gen" and secret and secret.group(0) in g["prompt"] and g["idx"] > (first_rw or -1) and not text_seen_before:
                 out.violate("rewrite-leak", "%s:%s" % (cfgclass, g["task"]),
                             "turn %d %s: the input was rewritten to %r but the %s prompt still contains the original text (%s)" % (rec.t, rec.tok, final, g["task"], secret.group(0)))
                 break
